@@ -92,6 +92,8 @@ def mutants_of(src, fn, nested_contracted=None):
             pass
         elif isinstance(n, ast.Raise) and n.lineno == n.end_lineno:
             splice(n, 'pass', 'drop-raise')
+        elif isinstance(n, (ast.Continue, ast.Break)):
+            splice(n, 'pass', 'drop-' + type(n).__name__.lower())
     # keep only those that still parse and differ
     good = []
     seen = set()
